@@ -138,6 +138,8 @@ def main():
             variants = variants + ["tiny"]        # the same mesh in other units (micrometres written in metres): Jacobian determinants of 1e-13
         if et == "QUAD4":
             variants = variants + ["large"]       # more than 46341 dofs: row * Ndof + column no longer fits in 32 bits
+        if et in ("TRI3", "QUAD8", "TETRA4", "HEXA8", "PRISM6") or thorough:
+            variants = variants + ["affine+mirrored"]     # every element with a negative Jacobian determinant (Mesh.Symmetry keeps the connectivity)
         if thorough:
             variants = variants + ["plain"]
         for variant in variants:
@@ -181,6 +183,8 @@ def main():
                 A, t = rand_affine(rng, dim)
                 M.affine(mesh, A, t)
                 mesh = renumber(mesh, rng)
+            if variant == "affine+mirrored":
+                mesh.Symmetry((0.25, -0.5, 0.0), (1.0, 2.0, 0.0) if dim == 2 else (1.0, 2.0, -2.0))
             fr, nint = flux_residual(mesh)
             flux_max, flux_meshes = max(flux_max, fr), flux_meshes + 1
             if not (fr <= 1e-9):
@@ -251,6 +255,23 @@ def main():
                             bad.append((nm, nv, float(np.abs(got - val).max())))
                 if bad:
                     res.fail(f"patch results elem={et} name={bad[0][0]}", f"reported constant values wrong: {bad[:4]} (name, nodeValues, max error)", ident)
+                # the whole tensors: the same constants, column by column (tensor components, no Kelvin-Mandel factor)
+                comps = ["xx", "yy", "xy"] if dim == 2 else ["xx", "yy", "zz", "yz", "xz", "xy"]
+                for tname, pre in (("Strain", "E"), ("Stress", "S")):
+                    wantT = np.array([names[pre + c] for c in comps])
+                    for nv in (False, True):
+                        try:
+                            gotT = np.asarray(simu.Result(tname, nodeValues=nv), dtype=float)
+                        except Exception as ex:  # noqa: BLE001
+                            res.fail(f"patch results elem={et} name={tname} raises", f"{type(ex).__name__}: {str(ex)[:150]}", ident)
+                            break
+                        rows = mesh.Nn if nv else mesh.Ne
+                        if gotT.shape != (rows, len(comps)):
+                            continue     # the layout ambiguity of Results_Reshape_values is a recorded finding of C16
+                        if not (np.abs(gotT - wantT).max() <= 1e-8 * sc):
+                            res.fail(f"patch results elem={et} name={tname}", f"Result('{tname}', nodeValues={nv}) is not the constant tensor {wantT.tolist()}: max error {np.abs(gotT - wantT).max():.2e}, "
+                                     f"first row {gotT[0].tolist()}", ident)
+                            break
                 measure = mesh.area if dim == 2 else mesh.volume
                 thick = law.thickness if dim == 2 else 1.0
                 wantW = 0.5 * epsK @ sigK * measure * thick
